@@ -231,6 +231,17 @@ type OptParams struct {
 
 // Optimize runs the real rediff over patch.
 func Optimize(patch []byte, oldDir, newDir string, op OptParams, out io.Writer) error {
+	return OptimizeWith(patch, oldDir, newDir, op, out, nil)
+}
+
+// OptPools are the two pools of an optimizer run, kept by a caller that runs the optimizer several times.
+type OptPools struct {
+	Target, Source lake.Pool
+}
+
+// OptimizeWith is Optimize over pools that outlive the call: when shared is non-nil its pools are created on first
+// use and NOT closed (a parameter sweep that builds its pools once).
+func OptimizeWith(patch []byte, oldDir, newDir string, op OptParams, out io.Writer, shared *OptPools) error {
 	params := rediff.Params{
 		PatchReader:           seeksource.FromBytes(patch),
 		Consumer:              Quiet(),
@@ -247,10 +258,19 @@ func Optimize(patch []byte, oldDir, newDir string, op OptParams, out io.Writer) 
 	if err != nil {
 		return fmt.Errorf("rediff.NewContext: %w", err)
 	}
-	tp := fspool.New(rc.GetTargetContainer(), oldDir)
-	sp := fspool.New(rc.GetSourceContainer(), newDir)
-	defer tp.Close()
-	defer sp.Close()
+	var tp, sp lake.Pool
+	if shared != nil {
+		if shared.Target == nil {
+			shared.Target = fspool.New(rc.GetTargetContainer(), oldDir)
+			shared.Source = fspool.New(rc.GetSourceContainer(), newDir)
+		}
+		tp, sp = shared.Target, shared.Source
+	} else {
+		tp = fspool.New(rc.GetTargetContainer(), oldDir)
+		sp = fspool.New(rc.GetSourceContainer(), newDir)
+		defer tp.Close()
+		defer sp.Close()
+	}
 	if err := rc.Optimize(rediff.OptimizeParams{TargetPool: tp, SourcePool: sp, PatchWriter: out}); err != nil {
 		return fmt.Errorf("Optimize: %w", err)
 	}
